@@ -202,10 +202,17 @@ R.add('L9.2', l92, l92_instances, replay=replay_l92,
 
 # ------------------------------------------------------------------ L9.3 / L9.4 / L9.5 packing
 def mk_sender(mtu_sym=True):
+    """sender under an arbitrary MTU.  The MTU is process-wide configuration (Packet.setMTU) that may change while a
+    connection exists: by symbolic choice the connection is constructed *before* the MTU under which it packs is set
+    (it was born under another arbitrary MTU), so limits frozen into the object at construction are visible."""
+    early = None
+    if mtu_sym and bool(symbool('conn_before_setmtu')):
+        Packet.setMTU(symint('mtu_at_birth', 512, 1500))
+        early = conn.ConnectionBase(symbool('isServer'), ('peer', 1))
     if mtu_sym:
         mtu = symint('mtu', 512, 1500)
         Packet.setMTU(mtu)
-    c = conn.ConnectionBase(symbool('isServer'), ('peer', 1))
+    c = early if early is not None else conn.ConnectionBase(symbool('isServer'), ('peer', 1))
     c.status = conn.ConnectionStatus.CONNECTED
     c.session_key_bytes = KEY
     return c
@@ -255,9 +262,13 @@ def replay_pack(cfg, m, check_fn):
     import os
     c = real('mpgameserver.connection')
     mtu = m.get('mtu', 1500)
+    early = None
+    if m.get('conn_before_setmtu'):
+        c.Packet.setMTU(m.get('mtu_at_birth', 1500))
+        early = c.ConnectionBase(bool(m.get('isServer', False)), ('peer', 1))
     c.Packet.setMTU(mtu)
     try:
-        cn = c.ConnectionBase(bool(m.get('isServer', False)), ('peer', 1))
+        cn = early if early is not None else c.ConnectionBase(bool(m.get('isServer', False)), ('peer', 1))
         cn.status = c.ConnectionStatus.CONNECTED
         cn.session_key_bytes = KEY
         for j in range(cfg.get('r', 0)):
